@@ -1,10 +1,10 @@
 SPECIFICATION Spec
 CONSTANTS
-  Procs = {1, 2}
+  Procs = {1, 2, 3}
   MaxOps = 2
-  MaxSteps = 7
+  MaxSteps = 5
   Repaired = TRUE
-  Emit = TRUE
+  Emit = FALSE
 CONSTRAINT EmitWalk
 INVARIANT Exclusive
 CHECK_DEADLOCK FALSE
